@@ -1,33 +1,44 @@
 import GrafeoModel.Driver.Proto
 import GrafeoModel.Driver.C15
+import GrafeoModel.Driver.Tx
 
 /-!
 `gdriver`: reads op lines `<stream> <op> <arg>*` on stdin, writes one line per op:
-`<model>\t<spec>\t<sig>`; lines starting with `#` are echoed; an op the driver cannot parse
-yields `bad-op` (never a default answer).
+`<model>\t<spec>\t<sig>`; lines starting with `#` are echoed (a `# case` line resets all
+stream state); an op the driver cannot parse yields `bad-op` (never a default answer).
 -/
 open Grafeo Grafeo.Proto
 
-def dispatch (line : String) : String :=
+structure DState where
+  tx : DriverTx.St := {}
+
+def dispatch (st : DState) (line : String) : DState × String :=
   let toks := (line.trimAscii.toString.splitOn " ").filter (· ≠ "")
   match toks with
-  | [] => "bad-op"
+  | [] => (st, "bad-op")
   | stream :: args =>
-    let r : Option Out :=
-      if stream == "c15" then DriverC15.handle args
-      else none
-    match r with
-    | some o => o.render
-    | none => "bad-op"
+    if stream == "c15" then
+      match DriverC15.handle args with
+      | some o => (st, o.render)
+      | none => (st, "bad-op")
+    else if stream == "tx" then
+      match DriverTx.handle st.tx args with
+      | some (t', o) => ({ st with tx := t' }, o.render)
+      | none => (st, "bad-op")
+    else (st, "bad-op")
 
-partial def loop (h : IO.FS.Stream) (out : IO.FS.Stream) : IO Unit := do
+partial def loop (h : IO.FS.Stream) (out : IO.FS.Stream) (st : DState) : IO Unit := do
   let line ← h.getLine
   if line.isEmpty then return ()
-  if line.startsWith "#" then out.putStr line
-  else out.putStrLn (dispatch line)
-  loop h out
+  if line.startsWith "#" then
+    out.putStr line
+    loop h out (if line.startsWith "# case" then {} else st)
+  else
+    let (st', r) := dispatch st line
+    out.putStrLn r
+    loop h out st'
 
 def main : IO Unit := do
   let i ← IO.getStdin
   let o ← IO.getStdout
-  loop i o
+  loop i o {}
